@@ -28,7 +28,9 @@ for m in sorted(os.listdir(os.path.join(V, 'seeded'))):
     pid = m.split('-')[0]
     verdict, nv, ni, first = res.get(m, ('?', '0', '0', ''))
     first = first.strip()
-    if m in HARMLESS:
+    if m not in res:
+        outcome = 'not-run-in-the-latest-runs'
+    elif m in HARMLESS:
         outcome = 'not-reported' if m in NOT_REPORTED_OK else 'reported-without-failing-input'
     elif first.startswith('violation:'):
         outcome = 'detected-with-failing-input'
@@ -49,7 +51,7 @@ if '--table' in sys.argv:
     for (m, title, outcome, first) in rows:
         t = re.sub(r'^(C\d\d )?([Mm]utant|change|demo|/ change) ?\d+ ?[-—:] ?', '', title)
         t = re.sub(r'^C\d\d / change \d+: ', '', t)
-        o = {'detected-with-failing-input': 'VIOLATION with replay: ', 'reported-without-failing-input': 'VIOLATION … no-failing-input-found: ', 'not-reported': 'not reported (see 13.5)'}[outcome]
-        f = first.replace('|', '/').replace('violation: ', '')[:130] if outcome != 'not-reported' else ''
+        o = {'detected-with-failing-input': 'VIOLATION with replay: ', 'reported-without-failing-input': 'VIOLATION … no-failing-input-found: ', 'not-reported': 'not reported (see 13.5)', 'not-run-in-the-latest-runs': 'not run in the latest runs'}[outcome]
+        f = first.replace('|', '/').replace('violation: ', '')[:130] if outcome not in ('not-reported', 'not-run-in-the-latest-runs') else ''
         print('| %s | %s | %s%s |' % (m, t.replace('|', '/')[:140], o, f))
 print('%d seeded changes; %s' % (len(rows), {k: sum(1 for r in rows if r[2] == k) for k in set(r[2] for r in rows)}), file=sys.stderr)
